@@ -39,6 +39,7 @@ TRUSTED = [
     "(cross-checked numerically against mpmath quadrature of the density on every run, not proved); for Uniform, "
     "Exponential, Gamma and the finite families it is proved equal to the defining integral / expectation",
     "TruncNormal: 50-digit mpmath quadrature of the truncated density is the oracle",
+    "finite-draw trigonometric goals: direct 40-digit summation over the finite law, tolerance 1e-15",
     "sympy diff / series / limit for the derivatives of the code's mgf / cf expressions at 0",
     "harness: parameter generator, canonicalisation to exact rationals",
 ]
@@ -399,6 +400,27 @@ def rewrite_cases(tier, r):
     return cases
 
 
+def trig_cases():
+    """programs whose goals make FunctionalAssignment request cf(0) of a finite draw (cos², sin·cos, sin²);
+    expected values by direct summation over the finite law (irrational: compared with tolerance 1e-15, Polar
+    rounds trigonometric constants to 20 digits)"""
+    import mpmath as mp
+
+    def exp_over(vals, f):
+        mp.mp.dps = 40
+        return sum(f(mp.mpf(v)) for v in vals) / len(vals)
+
+    out = []
+    for lo, hi in ((0, 3), (-1, 2), (2, 2)):
+        vals = list(range(lo, hi + 1))
+        text = _prog(["x = 0", "c = 0", "s = 0"], [f"x = DiscreteUniform({lo}, {hi})", "c = Cos(x)", "s = Sin(x)"])
+        out.append({"text": text, "tag": f"trig-discrete-uniform({lo},{hi})",
+                    "goals": [[["c", 2]], [["c", 1], ["s", 1]], [["s", 2]], [["c", 1]]],
+                    "expected": [exp_over(vals, lambda v: mp.cos(v) ** 2), exp_over(vals, lambda v: mp.cos(v) * mp.sin(v)),
+                                 exp_over(vals, lambda v: mp.sin(v) ** 2), exp_over(vals, mp.cos)]})
+    return out
+
+
 # expected structure of a rewritten pair, from the original parameter values (the premises of the Lean theorems)
 def expected_rewrite(name, values):
     """(new family, new params, c0, c1 or None, c1², lean locscale request)"""
@@ -556,6 +578,10 @@ def run(tier, only=None):
         add_task("pipeline", j, "harness.tasks.analyze:analyze",
                  {"text": rc["text"], "goals": [[[rc["target"], k]] for k in range(1, kpipe + 1)],
                   "subs": rc["point"], "nmax": nmax}, 150 if quick else 400)
+    tcases = trig_cases()
+    for j, tc in enumerate(tcases):
+        add_task("trig", j, "harness.tasks.analyze:analyze", {"text": tc["text"], "goals": tc["goals"], "nmax": 1},
+                 150 if quick else 400)
     results = run_tasks(tasks, timeout=t_task, progress=100)
 
     # ---------------- phase 3: evaluation --------------------------------------------------------------
@@ -582,6 +608,8 @@ def run(tier, only=None):
             eval_rewrite(chk, rcases[ref], out, spec_of, kmax, n_cmp)
         elif kind == "pipeline":
             eval_pipeline(chk, rcases[ref], out, spec_of, kpipe, nmax, n_cmp)
+        elif kind == "trig":
+            eval_trig(chk, tcases[ref], out, n_cmp)
 
     # TruncNormal: attribution round (in-memory repair) and Lean model of the recursion
     eval_truncnormal_round2(chk, sets, trunc_repairs, trunc_models, kmax, t_task)
@@ -1039,19 +1067,36 @@ def eval_pipeline(chk, rc, out, spec_of, kpipe, nmax, n_cmp):
             elif n >= 1:
                 chk.nontrivial.add(("p", rc["tag"], k, n))
     chk.count("pipeline-case:" + rc["kind"])
-    if mism:
-        # in-memory repair for attribution (F43): the same analysis with RecBuilder._reduce_powers expanding first
-        rr = run_tasks([{"fn": "harness.tasks.c08:analyze_repaired", "args": args}], timeout=400)[0]
-        rep = {}
-        if rr.get("status") == "ok" and rr["result"].get("accepted"):
-            for g in rr["result"]["goals"]:
-                if g.get("ok"):
-                    for n, v in enumerate(g["values"]):
-                        rep[(g["mono"][0][1], n)] = v
-        for m in mism:
-            m["repaired"] = rep.get((m["k"], m["n"]))
-            if _fail(chk, m, group=rc["text"]):
-                break
+    for m in mism:
+        # F43 (unexpanded factor in _reduce_powers) was repaired in /repo e1efeb4: any mismatch is a violation
+        _fail(chk, m, group=rc["text"])
+
+
+def eval_trig(chk, tc, out, n_cmp):
+    args = {"text": tc["text"], "goals": tc["goals"], "nmax": 1}
+    task = {"fn": "harness.tasks.analyze:analyze", "args": args}
+    if not out.get("accepted"):
+        chk.count(f"pipeline-refused:{tc['tag']}:{out.get('error', {}).get('etype')}")
+        return
+    for g, exp in zip(out["goals"], tc["expected"]):
+        goal = "*".join(f"{v}^{k}" for v, k in g["mono"])
+        if not g.get("ok"):
+            # cf(0) of a finite draw must be available since /repo 2c880c9: a refusal here is the old defect
+            _fail(chk, {"kind": "pipeline-trig", "text": tc["text"], "goal": goal, "n": 1, "expected": str(exp)[:30],
+                        "actual": g.get("error"), "family": "DiscreteUniform", "tag": tc["tag"],
+                        "what": f"E({goal}) for `{tc['tag']}` is refused: {g.get('error', {}).get('etype')} in "
+                                f"{g.get('error', {}).get('func')} (cf(0) of the draw?)", "task": task}, group=tc["text"])
+            continue
+        v = g["values"][1]
+        n_cmp["pipeline"] += 1
+        tv = mp_to_fr(exp, 30)
+        if v[0] != "q" or abs(Fr(v[1]) - tv) > Fr(1, 10 ** 15):
+            _fail(chk, {"kind": "pipeline-trig", "text": tc["text"], "goal": goal, "n": 1, "expected": fs(tv),
+                        "actual": v, "family": "DiscreteUniform", "tag": tc["tag"],
+                        "what": f"E({goal})(1) = {v[1][:40]} for `{tc['tag']}`, expected {float(tv)!r}", "task": task},
+                  group=tc["text"])
+        else:
+            chk.nontrivial.add(("trig", tc["tag"], goal))
 
 
 def eval_truncnormal_round2(chk, sets, trunc_repairs, trunc_models, kmax, t_task):
@@ -1189,6 +1234,14 @@ def replay(path):
     elif kind == "subs":
         print("actual:", out.get("items"))
         still = any(x["after_cached"] != x["fresh"] for x in out.get("items", []))
+    elif kind == "pipeline-trig":
+        g = next((x for x in out.get("goals", []) if "*".join(f"{v}^{k}" for v, k in x["mono"]) == blob["goal"]), None)
+        v = g["values"][1] if g and g.get("ok") else None
+        print("actual:", v if v else (g or {}).get("error"))
+        try:
+            still = v is None or v[0] != "q" or abs(Fr(v[1]) - Fr(blob["expected"])) > Fr(1, 10 ** 15)
+        except Exception:  # noqa
+            still = True
     elif kind == "pipeline":
         g = next((x for x in out.get("goals", []) if f"{x['mono'][0][0]}^{x['mono'][0][1]}" == blob["goal"]), None)
         v = g["values"][blob["n"]] if g and g.get("ok") else None
